@@ -73,6 +73,18 @@ Theorem C13_assert_continue :
 Proof. exact assert_continue_both. Qed.
 Print Assumptions C13_assert_continue.
 
+(* the continuing path is not strengthened by the asserted condition: an input violating it also
+   continues (and is reported on the failing branch too, so nothing is hidden) -- an
+   over-approximation of Foundry, where execution stops at the first failed assertion *)
+Theorem C13_continue_overapprox :
+  exists (check : path bool -> cond bool -> sat_result) (e : exec bool) (c : cond bool) (i : bool),
+    (forall p c', check p c' = Unsat -> forall j, sat_path bool p j = true -> c' j = false) /\
+    c i = false /\
+    existsb (fun o => continues_with bool o i) (assert_step bool check e c) = true /\
+    existsb (fun o => reported_failure bool o i) (assert_step bool check e c) = true.
+Proof. exact continue_overapprox. Qed.
+Print Assumptions C13_continue_overapprox.
+
 (* vm.assume(c): the continued path admits exactly prior /\ c, reports no failure, and leaves
    the frames alone *)
 Theorem C13_assume :
